@@ -310,3 +310,188 @@ func globalStorage(v ssa.Value, depth int) *ssa.Global {
 	}
 	return nil
 }
+
+// ---- C16-i: pooled objects ----
+
+// pooledDerived: v and what shares storage with it — its fields, what is loaded
+// from them, slices/pointers returned by its own methods.
+func pooledDerived(fn *ssa.Function, root ssa.Value) map[ssa.Value]bool {
+	D := map[ssa.Value]bool{root: true}
+	for changed := true; changed; {
+		changed = false
+		add := func(v ssa.Value) {
+			if v != nil && !D[v] {
+				D[v] = true
+				changed = true
+			}
+		}
+		for _, b := range fn.Blocks {
+			for _, in := range b.Instrs {
+				switch x := in.(type) {
+				case *ssa.FieldAddr:
+					if D[x.X] {
+						add(x)
+					}
+				case *ssa.Field:
+					if D[x.X] {
+						add(x)
+					}
+				case *ssa.UnOp:
+					if x.Op == token.MUL && D[x.X] {
+						if _, isFA := x.X.(*ssa.FieldAddr); isFA {
+							switch x.Type().Underlying().(type) {
+							case *types.Pointer, *types.Slice, *types.Map, *types.Interface:
+								add(x)
+							}
+						}
+					}
+				case *ssa.Phi:
+					for _, e := range x.Edges {
+						if D[e] {
+							add(x)
+						}
+					}
+				case *ssa.ChangeType:
+					if D[x.X] {
+						add(x)
+					}
+				case *ssa.MakeInterface:
+					if D[x.X] {
+						add(x)
+					}
+				case *ssa.Slice:
+					if D[x.X] {
+						add(x)
+					}
+				case *ssa.Call:
+					// a method of the pooled object that hands out its storage
+					cc := x.Common()
+					var recv ssa.Value
+					if cc.IsInvoke() {
+						recv = cc.Value
+					} else if sc := cc.StaticCallee(); sc != nil && sc.Signature.Recv() != nil && len(cc.Args) > 0 {
+						recv = cc.Args[0]
+					}
+					if recv != nil && D[recv] {
+						switch x.Type().Underlying().(type) {
+						case *types.Slice, *types.Pointer:
+							add(x)
+						}
+					}
+				}
+			}
+		}
+	}
+	return D
+}
+
+func init() {
+	register(&Rule{
+		ID: "C16-i", Template: "typestate (no use after release)",
+		Doc: "An object handed back to a sync.Pool belongs to whoever takes it next: in every production function, after (*sync.Pool).Put(x) nothing that shares storage with x (x itself, its fields, slices/pointers returned by its methods such as Bytes()) is used again in that activation, and when the Put is deferred nothing that shares storage with x is returned to the caller. Two transfers or two IndexTable calls at the same time would otherwise read and write each other's bytes: a table index holding another table's keys, or a received object whose body changes under the receiver.",
+		Min: 3,
+		Run: func(p *Program, r *RuleResult) error {
+			fns := p.ProdFuncs()
+			r.Analysed = len(fns)
+			isPut := func(c ssa.CallInstruction) bool {
+				f := calleeFunc(c)
+				return f != nil && f.FullName() == "(*sync.Pool).Put"
+			}
+			isGet := func(in ssa.Instruction) bool {
+				c, ok := in.(ssa.CallInstruction)
+				if !ok {
+					return false
+				}
+				f := calleeFunc(c)
+				return f != nil && f.FullName() == "(*sync.Pool).Get"
+			}
+			for _, fn := range fns {
+				n := 0
+				for _, b := range fn.Blocks {
+					for _, in := range b.Instrs {
+						ci, ok := in.(ssa.CallInstruction)
+						if !ok || !isPut(ci) || len(ci.Common().Args) < 2 {
+							continue
+						}
+						root := ci.Common().Args[1]
+						if mi, ok := root.(*ssa.MakeInterface); ok {
+							root = mi.X
+						}
+						D := pooledDerived(fn, root)
+						key := fmt.Sprintf("%s|Pool.Put#%d", funcName(fn), n)
+						n++
+						what := "nothing that shares storage with a pooled object is used after it was put back"
+						_, deferred := in.(*ssa.Defer)
+						if deferred {
+							bad := ""
+							for _, ret := range returnsOf(fn) {
+								for i := range ret.Results {
+									v := retVal(ret, i)
+									if v != nil && D[v] {
+										bad = "the function returns " + v.Name() + " (" + p.Rel(ret.Pos()) + "), which shares storage with the object that the deferred Put releases: the caller reads bytes that the next user of the pool overwrites"
+									}
+								}
+							}
+							if bad != "" {
+								r.bad(key, p.Rel(in.Pos()), what, bad)
+							} else {
+								r.ok(key, p.Rel(in.Pos()), what)
+							}
+							continue
+						}
+						// immediate Put: no later use (a new Get starts a new life)
+						block := map[ssa.Instruction]bool{}
+						for _, b2 := range fn.Blocks {
+							for _, i2 := range b2.Instrs {
+								if isGet(i2) {
+									block[i2] = true
+								}
+							}
+						}
+						// … and so does executing the definition of the pooled value again
+						// (the next element of a loop over objects that are all put back)
+						if def, ok := root.(ssa.Instruction); ok {
+							block[def] = true
+						}
+						bad := ""
+						for _, b2 := range fn.Blocks {
+							for _, i2 := range b2.Instrs {
+								if i2 == in || bad != "" {
+									continue
+								}
+								if _, ok := i2.(*ssa.DebugRef); ok {
+									continue
+								}
+								uses := false
+								for _, op := range i2.Operands(nil) {
+									if *op != nil && D[*op] {
+										uses = true
+									}
+								}
+								if !uses {
+									continue
+								}
+								if v, ok := i2.(ssa.Value); ok && D[v] {
+									// deriving is not using: FieldAddr etc. — but loads and calls are
+									switch i2.(type) {
+									case *ssa.FieldAddr, *ssa.Phi, *ssa.ChangeType, *ssa.MakeInterface, *ssa.Slice:
+										continue
+									}
+								}
+								if path, reach := reachAfter(fn, in, i2, nil, block); reach {
+									bad = fmtPath("used again at "+p.Rel(i2.Pos())+" after it was put back", path)
+								}
+							}
+						}
+						if bad != "" {
+							r.bad(key, p.Rel(in.Pos()), what, bad)
+						} else {
+							r.ok(key, p.Rel(in.Pos()), what)
+						}
+					}
+				}
+			}
+			return nil
+		},
+	})
+}
